@@ -118,6 +118,7 @@ if (jcol == BADPAN && krep == BADREP) {
 	if ( kfnz == EMPTY ) continue;	/* Skip any zero segment */
 
 	segsze = krep - kfnz + 1;
+	SLU_MT_VERIF_EVENT(SLU_EV_UPD_STEP, pnum, jj, kfnz, krep, 0);
 	luptr = xlusup[fsupc];
 
 	/* Calculate flops: tri-solve + mat-vector */
